@@ -6,6 +6,24 @@ V = "/verif"
 props = [json.loads(l) for l in open(V + "/properties.jsonl")]
 
 CLAIMS = {
+    "C03": dict(cat="other", tech="flag dominance, call-identity data flow, field-wise completeness (FIELDSET) over resolved MIR; visibility facts",
+                text="Structural clauses: decoder = sqrt_ratio_i(y^2-1, d*y^2+1) with its flag deciding Some, sign from input bit 255, T=X*Y after negation; encoder = as_bytes(Y/Z) with is_negative(X/Z) in bit 255; "
+                     "projective equality shape; every field-wise writer/selector of an EdwardsPoint touches all four coordinates consistently; identity/neg/cofactor/small-order/torsion-free wiring; coordinates and internal modules not public. "
+                     "The group law (formula completeness, exceptional points) is NOT decided",
+                note="partial: necessary structural conditions in every backend; algebra of the formulas is value-level", ref="3.6, 4 C03"),
+    "C07": dict(cat="other", tech="known-bits abstract interpretation of clamp_integer (complete) + PATH rules over resolved MIR",
+                text="clamp_integer is bit-exactly RFC 7748 clamping (decided completely); all clamped entry points multiply by Scalar{clamp(input)}; x25519-dalek reaches multiplications only through mul_clamped/mul_base_clamped with the documented shapes; "
+                     "ladder: bits_le().rev().skip(1), per-bit swap(prev^cur)+step, final swap, start (identity,(u:1)), result x0.as_affine(); to_edwards rejects decoded u=-1 before inverting and puts sign in bit 255; Montgomery eq/hash canonicalise; contributory = !identity; key conversions. Ladder-step and map arithmetic are not decided",
+                note="partial/structural except clamp_integer (complete)", ref="3.2 known-bits, 3.6, 4 C07"),
+    "C08": dict(cat="other", tech="ORDER of digest updates per hash session on every CFG path + call-identity data flow + dominance (PATH engine)",
+                text="raw_sign / raw_sign_prehashed: r = H([dom2(1,ctx)] prefix||M), R = compress(mul_base(r)), k = H([dom2] R||A||M), s = k*a + r, signature (R,s); context > 255 rejected before hashing (and in Context::new); "
+                     "expansion = from_bytes(SHA-512(seed)) with scalar = reduce(clamp(bytes[0..32])), prefix = bytes[32..64]; SigningKey only assembled with the verifying key derived from the same seed; sign wiring uses the key's own seed and verifying key; "
+                     "keypair / pkcs8 import reject a mismatching public half. Equality with RFC 8032 outputs on all inputs is not decided",
+                note="partial/structural; SHA-512 and scalar/point arithmetic trusted (C02/C04)", ref="3.6, 4 C08"),
+    "C17": dict(cat="other", tech="exhaustive arithmetic on evaluated ff constants + PATH rules (dominance, flag implication, delegation identity)",
+                text="ff constants satisfy their defining relations incl. generator of full order (factorisation of l-1 verified) and the Tonelli-Shanks exponent literal; from_repr = canonical decoder; from_repr_vartime: high-bit test and equality with reduce dominate Some; "
+                     "Field::invert None only for zero; GroupEncoding for EdwardsPoint/SubgroupPoint = native decoder (+ into_subgroup); into_subgroup flag = torsion-free predicate; clear_cofactor = x8; SubgroupPoint constructors inventory. sqrt correctness on all residues is delegated to ff's helper (trusted)",
+                note="partial for behaviour, complete for the constants", ref="3.1, 3.6, 4 C17"),
     "C12": dict(cat="proof", tech="exhaustive comparison of compiler-evaluated constants with an independent big-integer oracle (static: no repository code run)",
                 text="Every const/static of the three crates (field, scalar, point, table, vector-lane and ff constants), as evaluated by rustc and decoded by type layout, "
                      "equals its mathematical definition; exhaustive over all 2x(256+64) serial and 64(+64) vector table entries and every limb representation; quick = simd(u64+AVX2)+u32, thorough = all 8 configurations",
